@@ -49,7 +49,7 @@ func (s *Service) SyncCommitteeContribution(ctx context.Context,
 	// We create a cancelable context with a timeout.  When a provider responds we cancel the context to cancel the other requests.
 	ctx, cancel := context.WithTimeout(ctx, s.timeout)
 
-	respCh := make(chan *altair.SyncCommitteeContribution, 1)
+	respCh := make(chan *altair.SyncCommitteeContribution, len(s.syncCommitteeContributionProviders))
 	for name, provider := range s.syncCommitteeContributionProviders {
 		go func(ctx context.Context,
 			name string,
